@@ -18,7 +18,8 @@ import numpy as np
 from harness import alpha, core, gamma, shims, tlc, util
 
 # (names are whole header lines: a blank or a tab at either end is part of the name)
-BASES = [("phi", "rho"), ("Y(H2)", "temp"), ("mag vort", "T-1"), ("u_1", "u"), ("temp ", "temp"), (" x", "rho\t")]
+BASES = [("phi", "rho"), ("Y(H2)", "temp"), ("mag vort", "T-1"), ("u_1", "u"), ("temp ", "temp"), (" x", "rho\t"),
+         ("temp\u00e9rature", "\u0394p")]
 
 
 def concrete_names(names, seed):
